@@ -15,7 +15,9 @@ Executable model of the part of klauspost/reedsolomon v1.12 that kcp-go uses
   corresponding rows of the inverse times those `d` shards.  (Which `d` shards are used matters
   only when the shards are not a codeword — the mis-tuned decoder of C16/D10.)
 
-The abstract counterpart (any field, injective nodes, proved MDS) is `Lemmas/RS.lean`.
+The abstract counterpart (any field, injective nodes, proved MDS) is `Lemmas/RS.lean`;
+`Lemmas/RSGauss` proves `invert` correct and `Lemmas/RSBridge` that this code IS that counterpart
+over GF(2^8) (`rsNew_lawful`).
 -/
 import KcpVerif.Model.GF256
 
